@@ -349,12 +349,25 @@ func c14Run(t *testing.T, s *sim.Scn) *sim.Outcome {
 				return o
 			}
 		}
+		// Reading everything back after every operation would hide state a store keeps only in memory (a read
+		// refreshes it): with cfg lazy=1 the universe is read back only at "check" operations, after crash-cut
+		// operations (to learn which side of the cut is durable) and at the end; never right after a reopen.
+		if s.Cfg["lazy"] == 1 && op.K != "check" && op.K != "crashop" && op.K != "errop" {
+			continue
+		}
+		if op.K == "check" {
+			o.Count("explicit-read-backs", 1)
+		}
 		if d := c14Verify(ctx, st, m); d != "" {
 			o.Fail("C14/read-differs-from-latest-write", "", i, fmt.Sprintf("after %s: %s", op, d), "reads return the latest write")
 			return o
 		}
 		o.States = append(o.States, fmt.Sprintf("h=%d n=%d st=%v meta=%d", m.height, len(m.blocks), m.state != nil, len(m.meta)))
 		o.Logf("%d %s h=%d blocks=%d", i, op, m.height, len(m.blocks))
+	}
+	if d := c14Verify(ctx, st, m); d != "" {
+		o.Fail("C14/read-differs-from-latest-write", "", len(s.Ops), "final read-back: "+d, "reads return the latest write")
+		return o
 	}
 	o.Count("reopen", reopens)
 	o.Count("overwrite-height", overwrites)
@@ -371,12 +384,17 @@ func c14Gen(r *rand.Rand, tier string) *sim.Scn {
 	if tier == "thorough" && r.IntN(50) == 0 {
 		s.Cfg["badger"] = 1
 	}
+	if r.IntN(2) == 0 {
+		s.Cfg["lazy"] = 1
+	}
 	n := 3 + r.IntN(25)
-	kinds := []string{"save", "save", "save", "setheight", "state", "meta", "meta"}
+	kinds := []string{"save", "save", "save", "setheight", "setheight", "state", "meta", "meta"}
 	for i := 0; i < n; i++ {
 		k := kinds[r.IntN(len(kinds))]
 		op := sim.Op{K: k, A: r.Int64N(16), B: r.Int64N(16), C: r.Int64N(4)}
-		switch r.IntN(10) {
+		switch r.IntN(11) {
+		case 10:
+			op = sim.Op{K: "check"}
 		case 0:
 			op = sim.Op{K: "reopen"}
 		case 1, 2:
